@@ -65,6 +65,15 @@ func DecodePicTimingHevcSEI(sd *SEIData, exPar HEVCPicTimingParams) (SEIMessage,
 				if pt.DuCommonCpbRemovalDelayFlag {
 					pt.DuCommonCpbRemovalDelayIncrementMinus1 = uint32(br.Read(int(exPar.DuCpbRemovalDelayIncrementLengthMinus1) + 1))
 				}
+				// Each decoding unit needs at least one bit (ue(v)), so the payload size bounds the count.
+				if uint64(pt.NumDecodingUnitsMinus1)+1 > uint64(8*len(sd.Payload())) {
+					return nil, fmt.Errorf("num_decoding_units_minus1 %d too large for payload of %d bytes",
+						pt.NumDecodingUnitsMinus1, len(sd.Payload()))
+				}
+				pt.NumNalusInDuMinus1 = make([]uint32, pt.NumDecodingUnitsMinus1+1)
+				if !pt.DuCommonCpbRemovalDelayFlag {
+					pt.DuCpbRemovalDelayIncrementMinus1 = make([]uint32, pt.NumDecodingUnitsMinus1)
+				}
 				for i := uint32(0); i <= pt.NumDecodingUnitsMinus1; i++ {
 					pt.NumNalusInDuMinus1[i] = uint32(br.ReadExpGolomb())
 					if !pt.DuCommonCpbRemovalDelayFlag && i < pt.NumDecodingUnitsMinus1 {
